@@ -93,6 +93,8 @@ class CoapAccessory:
         self.m3_ok = None
         self.errors = []
         self.requests = []
+        self.setup = hap.SetupService(self.ident, "111-22-333", seed)
+        self.setup.controllers = self.controllers
 
     def pairing_data(self):
         return {
@@ -105,6 +107,8 @@ class CoapAccessory:
         """-> (code, payload) with code in {'changed', 'notfound'}."""
         if path.endswith("/2"):
             return "changed", self.pair_verify(payload)
+        if path.endswith("/1"):
+            return "changed", tlv8.encode(self.setup.handle(payload))
         if self.session is None:
             return "notfound", b""
         pt = C.open_(self.session["c2a"], nonce(self.session["c2a_ctr"]), payload)
